@@ -15,6 +15,7 @@ from harness.common import Raw, cq, cq_opt
 
 PID = "C18"
 PARALLEL = 8
+SHARD = 230      # cases per coqc file: the quick tier (3 613 cases) fills the 16 evaluation workers of the driver (round 5)
 IMPORTS = "From Coq Require Import Uint63.\nFrom Verif Require Import C18.Model C18.Spec C18.Corr."
 CASE_TYPE = "C18.Corr.case"
 RUNNER = "C18.Corr.run"
@@ -49,6 +50,18 @@ RULE = ("ident: (a) ALL histories of length <= 3 (thorough: <= 4) over a 10-lett
         "as (e) with references by identity (and the caller changing a field of its object), more lookups and manage requests, "
         "half of them next to a second IdentDB in the same process. For every ident history the harness also records whether "
         "an answer was an object the caller already held or an object the caller holds changed under its hands (must be never). "
+        "(i) [round 5] LONG-LIVED accounts / stores (quick 8 histories of 85-165 steps, thorough 51 of up to ~330): the number of "
+        "identifiers held for ONE user grows to 33, 34, 36, 65, 66, 101 (thorough: up to 260) -- session identifiers at four "
+        "requesters / persistent identifiers at ever new requesters / a mix of all formats and issuing entry points incl. "
+        "name-id-mapping and raw store(), with NewID requests and removals in between --, or the number of USERS of one store "
+        "grows to 40, 70; the first persistent identifier is re-requested and the first identifiers are looked up every few "
+        "steps during the growth; then the OLDEST three, a middle and the latest identifier are re-requested "
+        "(persistent_nameid / construct_nameid), looked up in reverse (as returned / as stored / by identity), listed (no "
+        "filter; {requester, format} in both orders), matched, mapped, given a NewID, terminated, removed, the account is "
+        "used further and the first identifiers are asked for once more; half of them across a re-opened store, a third next "
+        "to a second IdentDB; two histories over requesters and users of ~290 bytes that differ only in the last / only in the "
+        "first character (every pair asked for, asked again, looked up, listed, matched, mapped, managed), and one codec batch "
+        "of 40 identifiers with fields of 289 .. 1100 bytes differing only in the last / first character. "
         "codec: batches of five-field identifiers over a near-collision alphabet + decode on malformed strings; [round 4] every "
         "text is decoded twice and the caller overwrites all fields of the first answer in between. eptid: ALL ordered pairs of "
         "calls over a 4x4 (requester, user) alphabet around the '__' separator, ALL ordered pairs over 7 ways of splitting "
@@ -701,6 +714,253 @@ def gen_ident_filters(thorough):
     return out
 
 
+LONG_STYLES = ["sessions", "requesters", "mixed", "users"]
+# (style, number of identifiers held when the probes begin): just above the small round numbers a cap, a window or a
+# page size would plausibly be set to (32, 64, 100), plus values in between
+LONG_QUICK = [("sessions", 33), ("requesters", 34), ("mixed", 36), ("users", 40),
+              ("mixed", 66), ("requesters", 65), ("users", 70), ("sessions", 101)]
+
+
+def _long_sp(k):
+    """requester number k: as many distinct requesters as needed, spelled with the separators of SP_POOL"""
+    return ["https://sp%d.example.org/sp.xml", "urn:mace:sp %d", "sp,%d=x", "sp%%2C%d", "späm%d", "a__b%d", "%d=sp"][k % 7] % k
+
+
+def _long_user(k):
+    return ["user %d", "uid=%d,ou=x", "u%%20%d", "jörg%d", "x__%d", "%d%%", "%d=u"][k % 7] % k
+
+
+def gen_ident_long(rng, idx, style, target, thorough):
+    """(strengthening round 5) ONE account (or one store) that has been in use for a long time: the number of
+    identifiers held for one user (styles sessions / requesters / mixed) or the number of users of one store (style
+    users) grows past `target` (33 .. 101; thorough: .. 260), far beyond anything the other groups reach (max 29 dict
+    entries), and THEN the early identifiers -- and a middle and the latest one -- are asked for again (persistent_nameid / construct_nameid,
+    an absent qualifier spelled '' or None), looked up in reverse (as returned / as stored / by
+    identity), listed (no filter, the {requester, format} filter of Server.create_authn_response in both orders),
+    matched, mapped and managed (NewID, Terminate, removal), the account is used further and the first identifiers
+    are asked for once more.  During the growth the first persistent identifier is re-requested and the first issued
+    identifiers are looked up every few steps, so that a failing history has a short failing prefix.
+      sessions   a persistent login at one or two requesters, then session (transient) identifiers at four requesters
+      requesters a persistent identifier at ever new requesters
+      mixed      persistent (new requesters) / transient / e-mail / unspecified / custom format, issued through
+                 persistent_nameid, transient_nameid, get_nameid, construct_nameid, name-id-mapping and raw store(),
+                 with NewID requests (which move an identifier to the END of the stored list) and a few removals
+      users      ever new users at two requesters (the store grows, no single forward entry does)
+    A second user with two identifiers lives next to the busy one and is asked about at the end."""
+    nq = rng.choice(NQ_POOL + [""])        # "": no qualifier configured, requests spell it '' or leave it out
+    cfg = {"domain": rng.choice(["example.org", "ex ample.org"]), "nq": nq}
+    busy, other = rng.sample(USER_POOL, 2)
+    users = [busy, other]
+    sp0, sp1 = _long_sp(0), _long_sp(1)
+    ops = []
+    held = []            # steps whose answer the busy user (style users: anybody) still holds, in order of issue
+    req = {}             # step -> (user, requester, qualifier) of a persistent request
+    nsp = [2]
+    lit = [0]
+
+    def add(op, holds=True, triple=None):
+        ops.append(op)
+        k = len(ops) - 1
+        if holds:
+            held.append(k)
+        if triple:
+            req[k] = triple
+        return k
+
+    def pers(u, s, how="persistent"):
+        q = _respell(rng, nq)
+        if how == "construct":
+            return add({"op": "construct", "u": u, "lp": P, "s": s, "pol": None, "q": q}, triple=(u, s, q))
+        if how == "get":
+            return add({"op": "get", "u": u, "f": P, "s": s, "q": q}, triple=(u, s, q))
+        return add({"op": "persistent", "u": u, "s": s, "q": q}, triple=(u, s, q))
+
+    def new_sp():
+        nsp[0] += 1
+        return _long_sp(nsp[0])
+
+    def rep_of():
+        return rng.choice([{}, {}, {"rep": "stored"}, {"rep": "empty"}, {"rep": "obj"}])
+
+    def grow():
+        """one more identifier for the busy user (style users: one more user)"""
+        if style == "users":
+            u = _long_user(len(users))
+            users.append(u)
+            k = pers(u, rng.choice([sp0, sp0, sp1]), how=rng.choice(["persistent", "persistent", "construct"]))
+            if rng.random() < 0.15:
+                add({"op": "transient", "u": u, "s": sp0, "q": _respell(rng, nq)})
+            return k
+        if style == "sessions":
+            return add({"op": "transient", "u": busy, "s": _long_sp(2 + len(held) % 4), "q": _respell(rng, nq)})
+        if style == "requesters":
+            return pers(busy, new_sp(), how=rng.choice(["persistent", "persistent", "construct", "get"]))
+        x = rng.random()
+        if x < 0.3:
+            return pers(busy, new_sp(), how=rng.choice(["persistent", "construct", "get"]))
+        if x < 0.55:
+            return add({"op": "transient", "u": busy, "s": rng.choice([sp0, sp1, _long_sp(2)]), "q": _respell(rng, nq)})
+        if x < 0.7:
+            return add({"op": "get", "u": busy, "f": rng.choice([E, U, "custom fmt,1=x"]), "s": rng.choice([sp0, new_sp()]), "q": _respell(rng, nq)})
+        if x < 0.8:
+            return add({"op": "construct", "u": busy, "lp": T, "s": rng.choice([sp0, sp1]), "pol": rng.choice([None, [T, None, None]]),
+                        "q": rng.choice(["", nq])})
+        if x < 0.9 and held:
+            # a requester asks for the user's identifier at another requester (creates one)
+            return add({"op": "mapping", "n": {"ref": held[0]}, "pol": [P, new_sp(), "true"]})
+        lit[0] += 1
+        return add({"op": "store", "u": busy, "n": {"lit": [nq or None, rng.choice([sp0, sp1]), rng.choice([T, E, U]), None,
+                                                          "lit-%d %s" % (lit[0], rng.choice(["", ",=%", "é", "/x"]))]}})
+
+    def ask_again(k, how=None):
+        u, s, q = req[k]
+        how = how or rng.choice(["persistent", "persistent", "construct"])
+        if how == "construct":
+            add({"op": "construct", "u": u, "lp": P, "s": s, "pol": None, "q": _respell(rng, q)}, holds=False)
+        else:
+            add({"op": "persistent", "u": u, "s": s, "q": _respell(rng, q)}, holds=False)
+
+    def glance():
+        """a look at the oldest identifiers while the account grows"""
+        first_p = min(req) if req else None
+        z = rng.random()
+        if first_p is not None and z < 0.5:
+            ask_again(first_p)
+        elif z < 0.8:
+            add({"op": "findlocal", "n": dict({"ref": rng.choice(held[:3])}, **rep_of())}, holds=False)
+        elif first_p is not None:
+            add({"op": "match", "u": req[first_p][0], "s": req[first_p][1], "q": req[first_p][2]}, holds=False)
+
+    # ---- the beginning of the account
+    first = pers(busy, sp0, how=rng.choice(["persistent", "construct"]))
+    add({"op": "persistent", "u": other, "s": sp0, "q": _respell(rng, nq)}, holds=False)
+    add({"op": "transient", "u": other, "s": sp1, "q": _respell(rng, nq)}, holds=False)
+    if style != "users":
+        add({"op": "transient", "u": busy, "s": sp0, "q": _respell(rng, nq)})
+        if rng.random() < 0.6:
+            pers(busy, sp1)
+    # ---- growth
+    closed = False
+    while len(held) < target:
+        grow()
+        if rng.random() < 0.12:
+            glance()
+        if style == "mixed" and rng.random() < 0.08 and len(held) > 4:
+            k = rng.choice(held[1:])
+            if rng.random() < 0.7:
+                j = add({"op": "manage", "n": dict({"ref": k}, **rep_of()), "new": ["some", rng.choice(SPID_POOL)], "enc": False,
+                         "term": False}, holds=False)
+                if k in req:
+                    req[j] = req.pop(k)
+                held[held.index(k)] = j
+            elif k not in req:
+                add({"op": "remove", "n": {"ref": k}}, holds=False)
+                held.remove(k)
+        if not closed and len(held) > target // 2:
+            add({"op": "close"}, holds=False)
+            closed = True
+    # ---- the probes: oldest, a middle and the latest identifier
+    late = pers(busy if style != "users" else _long_user(len(users) - 1), new_sp())
+    if style == "users":
+        held.pop()      # an identifier of an existing user
+    plist = sorted(req)
+    probe_p = plist[:3] + [plist[len(plist) // 2], late]
+    probe_any = held[:3] + [held[len(held) // 2], held[-2]]
+    for k in probe_p:
+        ask_again(k)
+        add({"op": "findlocal", "n": {"ref": len(ops) - 1}}, holds=False)
+        add({"op": "findlocal", "n": dict({"ref": k}, **rep_of())}, holds=False)
+    for k in probe_any:
+        add({"op": "findlocal", "n": dict({"ref": k}, **rep_of())}, holds=False)
+    u0, s0, q0 = req[first]
+    add({"op": "find", "u": u0, "flt": []}, holds=False)
+    add({"op": "find", "u": u0, "flt": [[1, s0], [2, P]]}, holds=False)
+    add({"op": "find", "u": u0, "flt": [[2, P], [1, s0]]}, holds=False)
+    add({"op": "find", "u": req[late][0], "flt": [[2, P], [1, req[late][1]]]}, holds=False)
+    add({"op": "match", "u": u0, "s": s0, "q": q0}, holds=False)
+    add({"op": "match", "u": req[late][0], "s": req[late][1], "q": req[late][2]}, holds=False)
+    add({"op": "mapping", "n": {"ref": probe_any[1]}, "pol": [P, s0, "false"]}, holds=False)
+    add({"op": "mapping", "n": {"ref": first}, "pol": [P, req[late][1], "false"]}, holds=False)
+    j = add({"op": "manage", "n": dict({"ref": first}, **rep_of()), "new": ["some", "new,id=1"], "enc": False, "term": False}, holds=False)
+    add({"op": "findlocal", "n": {"ref": j}}, holds=False)
+    ask_again(first, how="persistent")
+    j = add({"op": "manage", "n": {"ref": j}, "new": None, "enc": False, "term": True}, holds=False)
+    add({"op": "find", "u": u0, "flt": [[1, s0], [2, P]]}, holds=False)
+    if probe_any[1] not in req:
+        add({"op": "remove", "n": {"ref": probe_any[1]}}, holds=False)
+        add({"op": "findlocal", "n": {"ref": probe_any[1]}}, holds=False)
+    add({"op": "findlocal", "n": {"ref": probe_any[2]}}, holds=False)
+    # ---- the account is used further, the first identifiers are asked for once more
+    for _ in range(3):
+        grow()
+    ask_again(first)
+    add({"op": "findlocal", "n": {"ref": j}}, holds=False)
+    ask_again(plist[1] if len(plist) > 1 else first)
+    add({"op": "persistent", "u": other, "s": sp0, "q": _respell(rng, nq)}, holds=False)
+    add({"op": "findlocal", "n": {"ref": 1}}, holds=False)
+    add({"op": "findlocal", "n": {"ref": 2}}, holds=False)
+    add({"op": "find", "u": other, "flt": []}, holds=False)
+    return {"kind": "ident", "flavour": "long-" + style, "cfg": cfg, "users": users, "ops": ops, "idx": "L%s-%d" % (idx, target),
+            "reopen": rng.random() < 0.5, "twin": rng.random() < 0.3}
+
+
+LONG_BASE = "https://sp.example.org/" + "federation/" * 24 + "sp"        # 289 bytes: longer than a 255 / 256 limit
+
+
+def gen_ident_long_names(variant):
+    """(round 5) LONG names: requesters and users of ~290 bytes that differ only in their last (variant 0) or only in
+    their first (variant 1) character -- a comparison, a key or a stored element cut off at a length limit makes two
+    requesters / two users one.  Every (user, requester) pair is asked for, asked for again, looked up, listed,
+    matched, mapped and managed."""
+    if variant == 0:
+        s1, s2, u1, u2 = LONG_BASE + "1", LONG_BASE + "2", "uid=" + "x" * 280 + ",ou=1", "uid=" + "x" * 280 + ",ou=2"
+    else:
+        s1, s2, u1, u2 = "1" + LONG_BASE, "2" + LONG_BASE, "1 uid=" + "x" * 280, "2 uid=" + "x" * 280
+    nq = ENUM_NQ
+    pairs = [(u1, s1), (u1, s2), (u2, s1), (u2, s2)]
+    ops = [{"op": "persistent", "u": u, "s": s, "q": nq} for u, s in pairs]
+    ops.append({"op": "transient", "u": u1, "s": s1, "q": nq})
+    ops += [{"op": "persistent", "u": u, "s": s, "q": nq} for u, s in pairs]
+    ops += [{"op": "findlocal", "n": {"ref": k}} for k in range(5)]
+    ops += [{"op": "find", "u": u1, "flt": [[1, s1], [2, P]]}, {"op": "find", "u": u1, "flt": [[2, P], [1, s2]]},
+            {"op": "find", "u": u2, "flt": []},
+            {"op": "match", "u": u1, "s": s2, "q": nq}, {"op": "match", "u": u2, "s": s1, "q": nq},
+            {"op": "mapping", "n": {"ref": 0}, "pol": [P, s2, "false"]},
+            {"op": "mapping", "n": {"ref": 2}, "pol": [P, s2, "false"]},
+            {"op": "manage", "n": {"ref": 1}, "new": ["some", LONG_BASE], "enc": False, "term": False},
+            {"op": "persistent", "u": u1, "s": s2, "q": nq}, {"op": "persistent", "u": u1, "s": s1, "q": nq},
+            {"op": "findlocal", "n": {"ref": 1}}, {"op": "findlocal", "n": {"ref": 0}},
+            {"op": "manage", "n": {"ref": 0}, "new": None, "enc": False, "term": True},
+            {"op": "remove", "n": {"ref": 3}}, {"op": "persistent", "u": u2, "s": s1, "q": nq},
+            {"op": "persistent", "u": u2, "s": s2, "q": nq}, {"op": "findlocal", "n": {"ref": 3}}]
+    return {"kind": "ident", "flavour": "long-names", "cfg": {"domain": "example.org", "nq": nq}, "users": [u1, u2],
+            "ops": ops, "idx": "LN%d" % variant}
+
+
+def gen_codec_long():
+    """(round 5) identifiers whose fields are long (289 .. 1100 bytes; 150 two-byte characters = 900 bytes quoted) and
+    differ only in the last or only in the first character, field by field"""
+    big = "y" * 1100
+    acc = "é" * 150
+    items = []
+    for a, b in ((LONG_BASE + "1", LONG_BASE + "2"), ("1" + LONG_BASE, "2" + LONG_BASE), (big + "a", big + "b"), (acc + "a", acc + "b")):
+        for i in range(5):
+            for v in (a, b):
+                f = [None, "sp5", P, None, "t"]
+                f[i] = v
+                items.append(f)
+    return {"kind": "codec", "items": items, "idx": "long"}
+
+
+def gen_ident_longs(rng, thorough):
+    plan = list(LONG_QUICK)
+    if thorough:
+        plan += [(LONG_STYLES[i % 4], rng.choice([33, 35, 50, 64, 65, 100, 101, 129, 130, 257, 260]) if i % 3 == 0
+                  else rng.randint(30, 140)) for i in range(40)]
+    return [gen_ident_long(rng, i, style, target, thorough) for i, (style, target) in enumerate(plan)] + \
+        [gen_ident_long_names(0), gen_ident_long_names(1), gen_codec_long()]
+
+
 CODEC_VALUES = [None, "", "a", "a,1=b", "0=a", "a=b", "a b", "%", "%2C", "a%20b", "/", "a/b", "é", "€,", "1", "4=",
                 ",", "=", " ", "a,b", "a\tb", "~._-", "A+B", "x" * 40, "é=é", "%zz", "a%"]
 
@@ -788,7 +1048,9 @@ def generate(ctx):
               # strengthening round 4 (appended likewise)
               gen_ident_lifecycles_obj(ctx.thorough),
               gen_ident_filters(ctx.thorough),
-              [gen_ident(rng, "o%d" % i, ctx.thorough, reps=2) for i in range(400 if ctx.thorough else 80)]]
+              [gen_ident(rng, "o%d" % i, ctx.thorough, reps=2) for i in range(400 if ctx.thorough else 80)],
+              # strengthening round 5 (appended likewise): accounts / stores that have been in use for a long time
+              gen_ident_longs(rng, ctx.thorough)]
     # interleave the kinds so that the expensive histories are spread evenly over the coqc shards
     keyed = []
     for g in groups:
@@ -1327,7 +1589,8 @@ def nontrivial(case, obs):
 
 
 def histogram(cases, observed):
-    h = {"kinds": {}, "ident_flavours": {}, "ident_ops": {}, "ident_outcomes": {}, "ident_lengths": {"<=10": 0, "11-30": 0, "31-60": 0},
+    h = {"kinds": {}, "ident_flavours": {}, "ident_ops": {}, "ident_outcomes": {}, "ident_lengths": {"<=10": 0, "11-30": 0, "31-60": 0, "61-120": 0, ">120": 0},
+         "ident_max_identifiers_of_one_user": 0, "ident_histories_with_more_than_32_identifiers_for_one_user": 0,
          "ident_args_by_identity": 0, "ident_twin_histories": 0, "ident_find_filter_sizes": {}, "ident_aliased_steps": 0,
          "ident_max_db": 0, "decode_exceptions": 0, "eptid_colliding_histories": 0, "codec_items": 0}
     for c, o in zip(cases, observed):
@@ -1335,8 +1598,12 @@ def histogram(cases, observed):
         if c["kind"] == "ident":
             h["ident_flavours"][c["flavour"]] = h["ident_flavours"].get(c["flavour"], 0) + 1
             n = len(c["ops"])
-            h["ident_lengths"]["<=10" if n <= 10 else ("11-30" if n <= 30 else "31-60")] += 1
+            h["ident_lengths"]["<=10" if n <= 10 else ("11-30" if n <= 30 else ("31-60" if n <= 60 else ("61-120" if n <= 120 else ">120")))] += 1
             h["ident_max_db"] = max(h["ident_max_db"], len(o["final"]))
+            us = set(c["users"])
+            per_user = max([len([x for x in v.split(" ") if x]) for k_, v in o["final"] if k_ in us] + [0])
+            h["ident_max_identifiers_of_one_user"] = max(h["ident_max_identifiers_of_one_user"], per_user)
+            h["ident_histories_with_more_than_32_identifiers_for_one_user"] += 1 if per_user > 32 else 0
             h["ident_twin_histories"] += 1 if c.get("twin") else 0
             h["ident_aliased_steps"] += len(o.get("aliased", []))
             for op in c["ops"]:
@@ -1374,7 +1641,9 @@ def _failing(cands):
         return set()
     obs = [observe(c) for c in cands]
     terms = [coq_case(c, o) for c, o in zip(cands, obs)]
-    res, errors = common.eval_cases(PID, IMPORTS, CASE_TYPE, RUNNER, terms, shard=40, tag="shrink")
+    # long histories cost seconds each in Coq: smaller shards (evaluated in parallel) for them
+    shard = 40 if sum(len(c.get("ops", [])) for c in cands) <= 1200 else 6
+    res, errors = common.eval_cases(PID, IMPORTS, CASE_TYPE, RUNNER, terms, shard=shard, tag="shrink")
     return {i for i, c in res if c == 2 or c in (11, 12, 13)}
 
 
@@ -1424,10 +1693,22 @@ def shrink(case, ctx):
         if case["kind"] != "ident":
             return case
         ops = case["ops"]
-        prefixes = [dict(case, ops=ops[:n]) for n in range(1, len(ops))]
-        bad = _failing(prefixes)
-        if bad:
-            case = prefixes[min(bad)]
+        if len(ops) <= 64:
+            prefixes = [dict(case, ops=ops[:n]) for n in range(1, len(ops))]
+            bad = _failing(prefixes)
+            if bad:
+                case = prefixes[min(bad)]
+        else:
+            # (round 5) a long history: every 8th prefix first, then the seven lengths below the first failing one
+            marks = list(range(8, len(ops), 8))
+            bad = _failing([dict(case, ops=ops[:n]) for n in marks])
+            hi = marks[min(bad)] if bad else len(ops)
+            fine = list(range(max(1, hi - 7), hi))
+            bad = _failing([dict(case, ops=ops[:n]) for n in fine])
+            if bad:
+                case = dict(case, ops=ops[:fine[min(bad)]])
+            elif hi < len(ops):
+                case = dict(case, ops=ops[:hi])
         for _ in range(8):
             ops = case["ops"]
             used = {r for o in ops for r in _refs(o)}
